@@ -31,6 +31,7 @@ struct CallInfo {
     pub(crate) iteration: usize,
     pub(crate) meta_info: ForInMetaInfo,
     pub(crate) line_context_name: String,
+    pub(crate) function_depth: usize,
 }
 
 fn serialize_forin_meta_info(
@@ -81,6 +82,10 @@ fn serialize_call_info(call_info: &CallInfo, sub_state: &mut HashMap<String, Sta
         "line_context_name".to_string(),
         StateValue::String(call_info.line_context_name.clone()),
     );
+    sub_state.insert(
+        "function_depth".to_string(),
+        StateValue::UnsignedNumber(call_info.function_depth),
+    );
 }
 
 fn deserialize_call_info(sub_state: &mut HashMap<String, StateValue>) -> Option<CallInfo> {
@@ -109,10 +114,16 @@ fn deserialize_call_info(sub_state: &mut HashMap<String, StateValue>) -> Option<
         None => return None,
     };
 
+    let function_depth = match sub_state.get("function_depth") {
+        Some(StateValue::UnsignedNumber(value)) => *value,
+        _ => 0,
+    };
+
     Some(CallInfo {
         iteration,
         meta_info,
         line_context_name,
+        function_depth,
     })
 }
 
@@ -220,6 +231,7 @@ fn pop_call_info_for_line(
     recursive: bool,
 ) -> Option<CallInfo> {
     let line_context_name = get_line_context_name(state);
+    let function_depth = function::get_call_stack_depth(state);
     let forin_state = get_core_sub_state_for_command(state, FORIN_STATE_KEY.to_string());
     let call_info_stack = get_list(CALL_STACK_STATE_KEY.to_string(), forin_state);
 
@@ -230,6 +242,7 @@ fn pop_call_info_for_line(
                     Some(call_info) => {
                         if (call_info.meta_info.start == line || call_info.meta_info.end == line)
                             && call_info.line_context_name == line_context_name
+                            && call_info.function_depth == function_depth
                         {
                             Some(call_info)
                         } else if recursive {
@@ -246,6 +259,26 @@ fn pop_call_info_for_line(
         },
         None => None,
     }
+}
+
+/// Drops the loops which were started by function invocations that are no longer running
+/// (a loop left via return must not be resumed by a later call).
+pub(crate) fn remove_call_info_from_depth(
+    function_depth: usize,
+    state: &mut HashMap<String, StateValue>,
+) {
+    let forin_state = get_core_sub_state_for_command(state, FORIN_STATE_KEY.to_string());
+    let call_info_stack = get_list(CALL_STACK_STATE_KEY.to_string(), forin_state);
+
+    call_info_stack.retain(|state_value| match state_value {
+        StateValue::SubState(call_info_state) => {
+            match deserialize_call_info(&mut call_info_state.clone()) {
+                Some(call_info) => call_info.function_depth < function_depth,
+                None => true,
+            }
+        }
+        _ => true,
+    });
 }
 
 fn store_call_info(call_info: &CallInfo, state: &mut HashMap<String, StateValue>) {
@@ -328,11 +361,13 @@ impl Command for ForInCommand {
                     match forin_meta_info_result {
                         Ok(forin_meta_info) => {
                             let line_context_name = get_line_context_name(context.state);
+                            let function_depth = function::get_call_stack_depth(context.state);
 
                             CallInfo {
                                 iteration: 0,
                                 meta_info: forin_meta_info,
                                 line_context_name,
+                                function_depth,
                             }
                         }
                         Err(error) => return CommandResult::Crash(error.to_string()),
@@ -341,7 +376,7 @@ impl Command for ForInCommand {
             };
 
             let iteration = call_info.iteration;
-            let forin_meta_info = call_info.meta_info;
+            let forin_meta_info = call_info.meta_info.clone();
 
             let handle = &context.arguments[2];
             match get_next_iteration(iteration, handle.to_string(), context.state) {
@@ -353,6 +388,7 @@ impl Command for ForInCommand {
                             iteration: iteration + 1,
                             meta_info: forin_meta_info,
                             line_context_name,
+                            function_depth: call_info.function_depth,
                         },
                         context.state,
                     );
